@@ -235,6 +235,9 @@ impl<T: WrappedKey> Occupied<T> for OccupiedEntry<'_, T> {
     type Error = Error;
 
     fn get(&self) -> Result<T, Self::Error> {
+        // Always decode from the start of the file: a previous
+        // `get` leaves the descriptor's offset at EOF.
+        self.fd.rewind()?;
         Ok(cbor::from_reader(&self.fd)?)
     }
 
@@ -277,6 +280,12 @@ impl Exclusive {
 
     fn fstat(&self) -> io::Result<fs::Stat> {
         fs::fstat(&self.0)
+    }
+
+    /// Sets the file offset to the start of the file.
+    fn rewind(&self) -> io::Result<()> {
+        fs::seek(&self.0, fs::SeekFrom::Start(0))?;
+        Ok(())
     }
 
     fn fsync(&self) -> io::Result<()> {
